@@ -29,7 +29,7 @@ EXPLANATION = (
     'written = compared on read (lighthouse and parameter files); R7 deck info section: 0x20 = 2 + calcsize(<LLL18s), masks are distinct '
     'single bits, info offsets; loco anchors: <fff? = page length, id list = 1 + max; the deck name extraction is total for an unterminated 18-byte field; R8 LED timing image: record layout, flags byte, terminator, and no all-zero record before the terminator (shared with C13.R5); trajectory pieces are covered in C13.R4.')
 ASSUMPTIONS = ['crc32/checksum functions are correct; only which bytes they cover and which byte they are compared with is decided']
-FLOORS = {'R1': 9, 'R2': 7, 'R3': 7, 'R4': 3, 'R5': 12, 'R6': 12, 'R7': 11, 'R8': 4}
+FLOORS = {'R1': 9, 'R2': 8, 'R3': 7, 'R4': 3, 'R5': 12, 'R6': 12, 'R7': 11, 'R8': 4}
 
 
 def packs(func):
@@ -167,6 +167,9 @@ def check(ctx):
     # R4
     hs = struct.calcsize('<BIBBB')
     gn = cfg_of(nd)
+    vt = [n for n in gn.nodes if n.kind == 'stmt' and isinstance(n.ast, ast.Assign) and norm(n.ast.targets[0]) == 'self.valid' and norm(n.ast.value) == 'True']
+    okv = bool(vt) and all(any(f.pol and isinstance(f.node, ast.Call) and method_call(f.node, '_parse_and_check_elements') for f in gn.facts_at(n)) for n in vt)
+    ctx.inst('R2', nd, 'ow-valid-only-after-element-check', okv, 'the 1-wire image becomes valid only on a path where _parse_and_check_elements(...) returned true (both the one-read and the two-read case)')
     dn = nd.params[3]
     for n, c in gn.find(lambda q: method_call(q, '_parse_and_check_elements')):
         keys = {f.key() for f in gn.facts_at_expr(n, c)}
